@@ -240,6 +240,13 @@ class World:
                                     dispatcher=dispatcher, adj=self.adj)
             self.servers.append(srv)
         self.server = self.servers[0]
+        self.multi = None
+        if listeners > 1:
+            # as create_server does for several listening sockets: the object whose run() is the loop
+            from waitress.server import MultiSocketServer
+
+            self.multi = MultiSocketServer(self.map, self.adj, [("127.0.0.1", 8080 + i) for i in range(listeners)], dispatcher,
+                                           lambda *a: None)
         self.loop_thread = self.sched.spawn(self._loop, (), name="io-loop", role="io")
 
     def _app_trampoline(self, environ, start_response):
@@ -247,7 +254,7 @@ class World:
 
     def _loop(self):
         try:
-            self.server.run()
+            (self.multi or self.server).run()
             self.count("loop-returned")
         except SimShutdown:
             raise
